@@ -123,6 +123,11 @@ def c17_2(ctx):
         unread = [o for e in w.exits for o in (gi.f_opaques(e.cond) if e.cond not in (True, False) else []) if isinstance(o, str) and "%s[0]" % SIG in o]
         if unread:
             raise Undecided("_decode_signature tests the header byte as `%s` (a table lookup or another form this rule does not read)" % unread[0][:80])
+    if s == E:
+        # the header byte reaches the range test under another name for the same byte (one field of a struct.unpack of the blob)
+        alt = [o for e in w.exits for o in (gi.f_opaques(e.cond) if e.cond not in (True, False) else []) if isinstance(o, str) and ("< 27" in o or "< 35" in o or "34 <" in o or "26 <" in o) and SIG in o]
+        if alt:
+            raise Undecided("_decode_signature tests the header byte as `%s`; this rule reads `<decoded blob>[0]`" % alt[0][:80])
     ctx.check(s == iv(27, 34).complement(), "header-range", ctx.where(d), "_decode_signature rejects header bytes %s, must be exactly outside 27..34" % s.fmt(), sample={"subject": "first byte", "rejected": s.fmt()})
     w2 = sym.int_walk(ctx, d, {"len(%s)" % SIG})
     s2, n2 = sym.decisive_set(sym.exits_formula(w2, ru.is_raise), U, E)
